@@ -165,6 +165,10 @@ impl ContextCallback for ConnectCallback {
         }
     }
     async fn on_error(&self, ctx: &mut Context, error: Error) {
+        // never send a failure reply after the success reply
+        if ctx.was_connected() {
+            return;
+        }
         let socket = ctx.borrow_client_stream();
         if socket.is_none() {
             return;
@@ -207,6 +211,10 @@ impl ContextCallback for FrameChannelCallback {
         }
     }
     async fn on_error(&self, ctx: &mut Context, error: Error) {
+        // never send a failure reply after the success reply
+        if ctx.was_connected() {
+            return;
+        }
         let socket = ctx.borrow_client_stream();
         if socket.is_none() {
             return;
